@@ -274,6 +274,8 @@ class S:
         if self.nxt is None or k < self.floor:
             return
         self.ops.append("del %d" % k)
+        if self.rng.random() < 0.5:
+            self.ops.append("cat")      # the catalogue of files right after the cut
         if k < self.nxt:
             self.nxt = k
 
@@ -284,6 +286,8 @@ class S:
         if self.ptrs and i <= self.ptrs[-1]:
             return
         self.ops.append("compact %d %d" % (i, self.term))
+        if self.rng.random() < 0.5:
+            self.ops.append("cat")
         self.ptrs.append(i)
         if len(self.ptrs) >= 2:
             # the pointer of the compaction before this one is installed now
@@ -298,7 +302,7 @@ class S:
     def check(self, reopen):
         if reopen:
             self.ops.append("reopen")
-        self.ops += ["last", "get 0 1000000", "files"]
+        self.ops += ["last", "get 0 1000000", "files", "cat"]
 
 
 def gen_store(rng, tier, mode):
